@@ -180,7 +180,8 @@ func buildChanges() []change {
 	add := func(name string, ap func(Base) bool, f func(*ctx)) { cs = append(cs, change{name, ap, f}) }
 	add("payload-nil", always, func(c *ctx) { c.req.Payload.Content = nil })
 	add("payload-empty", always, func(c *ctx) { c.req.Payload.Content = []byte{} })
-	for _, p := range []struct{ n, v string }{{"null", "null"}, {"array", `[1,2]`}, {"string", `"x"`}, {"number", `42`}, {"two-values", `{"a":1}{"b":2}`}, {"truncated", `{"a":`}, {"bool", `true`}, {"whitespace", "  "}, {"trailing-garbage", `{"a":1} x`}} {
+	for _, p := range []struct{ n, v string }{{"null", "null"}, {"array", `[1,2]`}, {"string", `"x"`}, {"number", `42`}, {"two-values", `{"a":1}{"b":2}`}, {"truncated", `{"a":`}, {"bool", `true`}, {"whitespace", "  "}, {"trailing-garbage", `{"a":1} x`},
+		{"trailing-brace", `{"a":1}}`}, {"trailing-bracket", `{"a":1}]`}, {"trailing-bracket-garbage", `{"a":1} ] garbage`}, {"trailing-comma", `{"a":1},`}, {"trailing-colon", `{"a":1}:`}, {"trailing-null", `{"a":1} null`}, {"leading-garbage", `x{"a":1}`}} {
 		v := p.v
 		add("jws-payload-"+p.n, jwsOnly, func(c *ctx) { c.req.Payload.Content = []byte(v) })
 	}
